@@ -33,8 +33,9 @@ type grpcOp struct {
 	Err    bool   `json:"err"`
 	Cls    string `json:"cls"`
 	LeCode string `json:"lecode"`
-	LeErr  string `json:"leerr"` // the error value of the custom limit-exceeded classifier: plain | status (itself a gRPC status of another code) | wrapped
-	Ctx    string `json:"ctx"`   // live | cancelled (while the wrapped call runs) | expired
+	LeErr  string `json:"leerr"`            // the error value of the custom limit-exceeded classifier: plain | status (itself a gRPC status of another code) | wrapped
+	Ctx    string `json:"ctx"`              // live | cancelled (while the wrapped call runs) | expired
+	OGrant *bool  `json:"ogrant,omitempty"` // chained interceptors: whether the outer layer's limiter grants
 }
 
 // grpcRec is the shared recorder of the doubles of one intercepted operation.
@@ -135,6 +136,11 @@ type grpcStack struct {
 	us  golangGrpc.UnaryServerInterceptor
 	uc  golangGrpc.UnaryClientInterceptor
 	ss  golangGrpc.StreamServerInterceptor
+	// a second set built from the same options over limiters of its own ("o.main", "o.recv", "o.send"): the outer layer
+	// of a chain
+	ous golangGrpc.UnaryServerInterceptor
+	ouc golangGrpc.UnaryClientInterceptor
+	oss golangGrpc.StreamServerInterceptor
 }
 
 func leCode(req interface{}) codes.Code {
@@ -195,6 +201,13 @@ func newGrpcStack(cfg grpcCfg) *grpcStack {
 	st.us = grpclimit.UnaryServerInterceptor(uopts...)
 	st.uc = grpclimit.UnaryClientInterceptor(uopts...)
 	st.ss = grpclimit.StreamServerInterceptor(sopts...)
+	// later options win: the same options with the outer layer's limiters appended
+	ouopts := append(append([]grpclimit.InterceptorOption{}, uopts...), grpclimit.WithLimiter(&recLimiter{"o.main", st.rec}))
+	osopts := append(append([]grpclimit.StreamInterceptorOption{}, sopts...),
+		grpclimit.WithStreamRecvLimiter(&recLimiter{"o.recv", st.rec}), grpclimit.WithStreamSendLimiter(&recLimiter{"o.send", st.rec}))
+	st.ous = grpclimit.UnaryServerInterceptor(ouopts...)
+	st.ouc = grpclimit.UnaryClientInterceptor(ouopts...)
+	st.oss = grpclimit.StreamServerInterceptor(osopts...)
 	return st
 }
 
@@ -231,31 +244,69 @@ func (st *grpcStack) run(op grpcOp) (obs J, err error) {
 		}
 	}
 	req := op.LeCode
+	handler := func(ctx context.Context, req interface{}) (interface{}, error) {
+		rec.mu.Lock()
+		rec.ran++
+		rec.mu.Unlock()
+		during()
+		return resp, inner
+	}
+	invoker := func(ctx context.Context, method string, req, reply interface{}, cc *golangGrpc.ClientConn, opts ...golangGrpc.CallOption) error {
+		rec.mu.Lock()
+		rec.ran++
+		rec.mu.Unlock()
+		during()
+		return inner
+	}
+	streamHandler := func(srv interface{}, ss golangGrpc.ServerStream) error {
+		if op.Kind == "recv" {
+			return ss.RecvMsg(req)
+		}
+		return ss.SendMsg(req)
+	}
+	chained := op.OGrant != nil
+	if chained {
+		rec.mu.Lock()
+		rec.grantBy = map[string]bool{"o.main": *op.OGrant, "o.recv": *op.OGrant, "o.send": *op.OGrant}
+		rec.mu.Unlock()
+		defer func() {
+			rec.mu.Lock()
+			rec.grantBy = nil
+			rec.mu.Unlock()
+		}()
+	}
 	switch op.Kind {
 	case "unaryServer":
-		gotResp, ret = st.us(ctx, req, &golangGrpc.UnaryServerInfo{FullMethod: "/svc/M"}, func(ctx context.Context, req interface{}) (interface{}, error) {
-			rec.mu.Lock()
-			rec.ran++
-			rec.mu.Unlock()
-			during()
-			return resp, inner
-		})
+		info := &golangGrpc.UnaryServerInfo{FullMethod: "/svc/M"}
+		if chained {
+			// what grpc.ChainUnaryInterceptor builds: the outer interceptor's handler is the inner interceptor
+			gotResp, ret = st.ous(ctx, req, info, func(ctx context.Context, req interface{}) (interface{}, error) {
+				return st.us(ctx, req, info, handler)
+			})
+		} else {
+			gotResp, ret = st.us(ctx, req, info, handler)
+		}
 	case "unaryClient":
-		ret = st.uc(ctx, "/svc/M", req, resp, nil, func(ctx context.Context, method string, req, reply interface{}, cc *golangGrpc.ClientConn, opts ...golangGrpc.CallOption) error {
-			rec.mu.Lock()
-			rec.ran++
-			rec.mu.Unlock()
-			during()
-			return inner
-		})
+		if chained {
+			ret = st.ouc(ctx, "/svc/M", req, resp, nil, func(ctx context.Context, method string, req, reply interface{}, cc *golangGrpc.ClientConn, opts ...golangGrpc.CallOption) error {
+				return st.uc(ctx, method, req, reply, cc, invoker, opts...)
+			})
+		} else {
+			ret = st.uc(ctx, "/svc/M", req, resp, nil, invoker)
+		}
 		gotResp = resp
 	case "recv", "send":
-		ret = st.ss(nil, &fakeStream{ctx: ctx, r: rec, err: inner, during: during}, &golangGrpc.StreamServerInfo{FullMethod: "/svc/S"}, func(srv interface{}, ss golangGrpc.ServerStream) error {
-			if op.Kind == "recv" {
-				return ss.RecvMsg(req)
-			}
-			return ss.SendMsg(req)
-		})
+		info := &golangGrpc.StreamServerInfo{FullMethod: "/svc/S"}
+		fs := &fakeStream{ctx: ctx, r: rec, err: inner, during: during}
+		if chained {
+			// grpc.ChainStreamInterceptor: each interceptor wraps the stream it is given, so the wrapper created last is the one
+			// the handler's RecvMsg / SendMsg enters first - the "outer layer" of an operation is the interceptor chained last
+			ret = st.ss(nil, fs, info, func(srv interface{}, ss golangGrpc.ServerStream) error {
+				return st.oss(srv, ss, info, streamHandler)
+			})
+		} else {
+			ret = st.ss(nil, fs, info, streamHandler)
+		}
 		gotResp = resp
 	default:
 		return nil, fmt.Errorf("unknown kind %q", op.Kind)
